@@ -26,6 +26,10 @@ def strip(n):
     return n
 
 
+ALIASES = {}
+FUNCS = {}
+
+
 def member_path(n):
     path = []
     n = strip(n)
@@ -33,7 +37,8 @@ def member_path(n):
         if n["kind"] == "MemberExpr": path.append(n["name"])
         n = strip(n["inner"][0])
     if n.get("kind") == "DeclRefExpr":
-        path.append(n["referencedDecl"]["name"])
+        nm = n["referencedDecl"]["name"]
+        path.append(ALIASES.get(nm, nm))          # (a helper's parameter stands for what the caller passed)
         return tuple(reversed(path))
     return None
 
@@ -108,32 +113,68 @@ def calls_in(n, out):
 
 def stmts(items):
     """-> Lean term : List Ev"""
+    return seq(items)[0]
+
+
+def seq(items):
+    """statements -> (Lean term : List Ev, every path through them ends in a return)"""
     parts = []
-    for s in items:
+    for idx, s in enumerate(items):
         k = s.get("kind")
         if k == "CompoundStmt":
-            parts.append(stmts(s.get("inner", [])))
+            t, ret = seq(s.get("inner", []))
+            parts.append(t)
+            if ret: return "(" + " ++ ".join(parts) + ")", True
         elif k == "IfStmt":
             c = guard(s["inner"][0])
-            th = stmts([s["inner"][1]])
-            el = stmts([s["inner"][2]]) if s.get("hasElse") else "[]"
+            th, thr = seq([s["inner"][1]])
+            el, elr = seq([s["inner"][2]]) if s.get("hasElse") else ("[]", False)
+            if thr or elr:
+                # what follows the `if` is reached only on the branches that do not return
+                rest, restr = seq(items[idx + 1:])
+                a = th if thr else f"({th} ++ {rest})"
+                b = el if elr else f"({el} ++ {rest})"
+                parts.append(f"(if {c} then {a} else {b})")
+                return "(" + " ++ ".join(parts) + ")", (thr or restr) and (elr or restr)
             parts.append(f"(if {c} then {th} else {el})")
         elif k in ("NullStmt",):
             pass
         elif k == "ReturnStmt":
-            raise Unsupported("a return in the middle of run_the_test_code()")
+            if s.get("inner"):
+                evs = []
+                calls_in(s["inner"][0], evs)
+                if evs: parts.append("[" + ", ".join(fmt_ev(e) for e in evs) + "]")
+            return ("(" + " ++ ".join(parts) + ")" if parts else "[]"), True
         elif k in ("DeclStmt", "WhileStmt", "ForStmt", "DoStmt", "SwitchStmt", "GotoStmt", "CXXTryStmt"):
             raise Unsupported(f"a {k} in run_the_test_code()")
+        elif k == "CallExpr" and strip(s["inner"][0]).get("kind") == "DeclRefExpr" and strip(s["inner"][0])["referencedDecl"]["name"] in FUNCS \
+                and strip(s["inner"][0])["referencedDecl"]["name"] not in CALLS and strip(s["inner"][0])["referencedDecl"]["name"] not in GUARDS \
+                and strip(s["inner"][0])["referencedDecl"]["name"] not in ("cgreen_mocks_are", "alarm", "die_in", "run_the_test_code") and len(ALIASES) < 12:
+            h = FUNCS[strip(s["inner"][0])["referencedDecl"]["name"]]
+            saved = dict(ALIASES)
+            for p_, a_ in zip([p_ for p_ in h.get("inner", []) if p_.get("kind") == "ParmVarDecl"], s["inner"][1:]):
+                ap = member_path(a_)
+                if ap and len(ap) == 1: ALIASES[p_["name"]] = ap[0]
+            parts.append(seq(next(c for c in h["inner"] if c.get("kind") == "CompoundStmt").get("inner", []))[0])      # (a return ends the helper only)
+            ALIASES.clear(); ALIASES.update(saved)
         else:
             evs = []
             calls_in(s, evs)
             if evs:
-                parts.append("[" + ", ".join("." + e if not e.startswith("other") and not e.startswith("phase") else ".other " + e[6:] if e.startswith("other") else ".phase " + e[6:] for e in evs) + "]")
-    return "(" + " ++ ".join(parts) + ")" if parts else "[]"
+                parts.append("[" + ", ".join(fmt_ev(e) for e in evs) + "]")
+    return ("(" + " ++ ".join(parts) + ")" if parts else "[]"), False
+
+
+def fmt_ev(e):
+    if e.startswith("other"): return ".other " + e[6:]
+    if e.startswith("phase"): return ".phase " + e[6:]
+    return "." + e
 
 
 def generate():
     top = ast_of("src/runner.c").get("inner", [])
+    FUNCS.clear(); ALIASES.clear()
+    FUNCS.update({n["name"]: n for n in top if n.get("kind") == "FunctionDecl" and any(c.get("kind") == "CompoundStmt" for c in n.get("inner", []) or [])})
     fn = next((n for n in top if n.get("kind") == "FunctionDecl" and n.get("name") == "run_the_test_code" and any(c.get("kind") == "CompoundStmt" for c in n.get("inner", []) or [])), None)
     if fn is None: raise Unsupported("run_the_test_code: no definition in src/runner.c")
     body = next(c for c in fn["inner"] if c.get("kind") == "CompoundStmt")
